@@ -9,11 +9,15 @@ CONSTANTS
   FullOrder = FALSE
   Points <- PtsFrac
   Feeds <- Fd2
+  PhaseMaps <- Ph1
+  ReKVals <- NoReK
+  MaxHist = 0
 INVARIANT PolyAgreesWithFold
 INVARIANT PermutationInvariant
 INVARIANT InactiveNotInExponent
 INVARIANT UntouchedGetNothing
 INVARIANT FeedExact
+INVARIANT CurrentConstantRules
 INVARIANT NetCountsInactive
 INVARIANT PointSeparates
 INVARIANT PolysNormal
